@@ -184,6 +184,9 @@ class StreamModel:
             seen = static or born < i or st['represent'].get(id(region))
             if born == i and not static:
                 st['represent'][id(region)] = True
+            if id(region) in st.get('gone', ()):
+                interp2.effect('capture', name, K(i), NONE)
+                return K(None)
             level = sched.policy(name, static, i - (0 if static else born),
                                  seen if sched.name not in ('giant', 'small-then-giant',
                                                            'birth-partial')
@@ -234,6 +237,15 @@ class StreamModel:
                     region.fields.get('offset')))
             floor = self.held_floor(interp, insp, region)
             info[name] = (kind, off, floor, st.get('chunk_floor'))
+            cf = st.get('chunk_floor')
+            if kind == 'region' and off is not None and cf:
+                # every byte of the region went by before the chunk that
+                # defines it started: no later chunk can deliver it
+                length = interp.guide(interp.termify(
+                    region.fields.get('length')))
+                if isinstance(length, int) and length > 0 and \
+                        off + length < cf:
+                    st.setdefault('gone', set()).add(id(region))
         except (CannotEval, Raised):
             info[name] = (kind, None, None, None)
 
